@@ -8,6 +8,15 @@
 on three carriers: `e4` (ext4, 1 KiB blocks, metadata_csum, extents), `e3` (ext3: block maps, no checksums) and `up`
 (the ext3 image with the extent feature switched on by tune2fs: an upgraded filesystem whose files are still block mapped).
 
+  ExtStateFamily = tree class x written/unwritten pattern of up to three neighbouring extents x adjacency class -> one file
+                 each under /maps of the small carrier `st`.  The files are written with non-zero bytes, the trees are shaped
+                 with debugfs punch, and the extents are then cut and flagged one by one through debugfs' extent editor
+                 (extent_open / replace_node / insert_node [--uninit]), so every unwritten block sits on stale non-zero bytes.
+  CfDirFamily  = encoding mode of the filesystem x casefold flag of the directory x name kind x size class -> one directory each
+                 under /cf of the carriers `cf` (mke2fs -O casefold) and `cfs` (the same with -E encoding_flags=strict); the
+                 casefold flag is set with debugfs set_inode_field while the directory is still linear.  Name kinds are
+                 concrete byte strings (NAME_KINDS below) for every class the specification lists.
+
 Entry counts are derived from the real constants (block size, dirent size, csum tail, dx root limit and the fill rule of
 e2fsck/rehash.c copy_dir_entries: a leaf is closed once less than 20 % of it is left).  Every entry of a family directory is
 a hard link to one inode, so thousands of entries cost one inode.  Hash collisions are REAL collisions of the half-MD4
@@ -265,6 +274,339 @@ def host_tree(root, fam, shapes, tail, seed, hver):
 
 
 # ---------------------------------------------------------------------------------------------------------------
+# written / unwritten extent states (carrier `st`)
+# ---------------------------------------------------------------------------------------------------------------
+ST_CARRIER = dict(args="-t ext4 -b 1024 -N 256 -O metadata_csum,64bit -J size=1", kb=8192)
+ST_LEN = 2                  # blocks per extent of the pattern
+ST_ISLAND0 = 20             # first logical block of the filler extents that give the tree its depth
+ST_D2_KEEP = 6              # filler extents left in the depth-2 tree
+
+
+def st_name(t, p, a):
+    return "st_%s_%s_%s" % (t, "".join(p), a)
+
+
+def st_core(p, a):
+    """logical start blocks of the pattern's extents"""
+    return [k * (ST_LEN + 1 if a == "loggap" else ST_LEN) for k in range(len(p))]
+
+
+def st_host_file(path, t, p, a):
+    nfill = {"inode": 0, "collapsible": 5, "leaf": 5, "collapsible_d2": 345}[t]
+    with open(path, "wb") as f:
+        for k, l in enumerate(st_core(p, a)):
+            f.seek(l * BS)
+            f.write(bytes((((k + 1) * 53 + i) % 255) + 1 for i in range(ST_LEN * BS)))          # never a zero byte
+        for j in range(nfill):
+            f.seek((ST_ISLAND0 + 2 * j) * BS)
+            f.write(bytes([(j % 200) + 33]) * BS)
+
+
+def st_shape(build, img, fam):
+    """punch the filler extents away where the class says so, then cut / flag the pattern's extents; returns what was obtained"""
+    env = tool_env(build)
+    dbg = os.path.join(build, "debugfs", "debugfs")
+    cmds = []
+    for t, p, a in fam:
+        if t == "collapsible":
+            cmds.append("punch /maps/%s %d" % (st_name(t, p, a), ST_ISLAND0))
+        elif t == "collapsible_d2":
+            cmds.append("punch /maps/%s %d" % (st_name(t, p, a), ST_ISLAND0 + 2 * ST_D2_KEEP))
+    rc, out, err = run([dbg, "-w", "-f", "-", img], env=env, timeout=300, input=("\n".join(cmds) + "\n").encode())
+    if rc != 0:
+        raise RuntimeError("debugfs punch failed on the extent-state carrier: %s" % err.decode("utf8", "replace")[-300:])
+
+    def runs_of():
+        r = ext4read.Reader(img)
+        P = r.project()
+        if "fatal" in P or "reader_err" in P:
+            raise RuntimeError("reader cannot project the extent-state carrier: %s" % str(P.get("fatal") or P.get("reader_err"))[:200])
+        byino = {i["ino"]: i for i in P["inodes"]}
+        return r, {t_["path"][6:]: byino[t_["ino"]] for t_ in P["tree"] if t_["path"].startswith("/maps/")}
+    r, files = runs_of()
+    cmds, want = [], {}
+    for t, p, a in fam:
+        nm = st_name(t, p, a)
+        core = st_core(p, a)
+        have = {x[0]: x for x in files[nm]["runs"]}
+        if a == "loggap":
+            phys = []
+            for l in core:
+                if l not in have or have[l][1] != ST_LEN:
+                    raise RuntimeError("%s: expected an extent of %d blocks at %d, have %s" % (nm, ST_LEN, l, files[nm]["runs"][:6]))
+                phys.append(have[l][2])
+        else:
+            if 0 not in have or have[0][1] != ST_LEN * len(p):
+                raise RuntimeError("%s: expected one extent of %d blocks at 0, have %s" % (nm, ST_LEN * len(p), files[nm]["runs"][:6]))
+            P0 = have[0][2]
+            order = list(range(len(p))) if a == "contig" else list(reversed(range(len(p))))        # physgap: pieces in reverse order
+            phys = [P0 + ST_LEN * order[k] for k in range(len(p))]
+        want[nm] = [(core[k], ST_LEN, phys[k], 1 if p[k] == "u" else 0) for k in range(len(p))]
+        cmds.append("extent_open /maps/%s" % nm)
+        for k in range(len(p)):
+            un = "--uninit " if p[k] == "u" else ""
+            if a == "loggap" or k == 0:
+                cmds.append("goto_block %d" % core[k])
+                cmds.append("replace_node %s%d %d %d" % (un, core[k], ST_LEN, phys[k]))
+            else:
+                cmds.append("insert_node --after %s%d %d %d" % (un, core[k], ST_LEN, phys[k]))
+        cmds.append("extent_close")
+    rc, out, err = run([dbg, "-w", "-f", "-", img], env=env, timeout=300, input=("\n".join(cmds) + "\n").encode())
+    if rc != 0:
+        raise RuntimeError("debugfs extent editing failed: %s" % err.decode("utf8", "replace")[-300:])
+    r, files = runs_of()
+    got = {"files": len(fam), "depth0": 0, "depth1": 0, "depth2": 0, "unwritten_extents": 0, "unwritten_blocks_on_nonzero_bytes": 0,
+           "written_unwritten_neighbours_contiguous": 0}
+    for t, p, a in fam:
+        nm = st_name(t, p, a)
+        I = files[nm]
+        runs = [tuple(x) for x in I["runs"]]
+        head = [(x[0], x[1], x[2], 1 if x[3] else 0) for x in runs[:len(p)]]
+        if head != want[nm]:
+            raise RuntimeError("%s: extents obtained %s differ from the pattern %s" % (nm, head, want[nm]))
+        d = len(I["own"]["index"])
+        got["depth0" if d == 0 else "depth1" if d == 1 else "depth2"] += 1
+        if (t == "inode") != (d == 0) or (t == "collapsible_d2") != (d > 1):
+            raise RuntimeError("%s: tree class not obtained (%d index blocks, %d extents)" % (nm, d, len(runs)))
+        if t == "collapsible" and len(runs) >= 4:
+            raise RuntimeError("%s: %d extents left, e2fsck would not collapse the tree" % (nm, len(runs)))
+        for k, (l, n, pb, un) in enumerate(want[nm]):
+            if un:
+                got["unwritten_extents"] += 1
+                raw = r.img[pb * BS:(pb + n) * BS]
+                for i in range(n):
+                    if any(raw[i * BS:(i + 1) * BS]):
+                        got["unwritten_blocks_on_nonzero_bytes"] += 1
+                    else:
+                        raise RuntimeError("%s: unwritten block %d holds zeros on disk" % (nm, pb + i))
+            if k and a == "contig" and want[nm][k - 1][3] != un:
+                got["written_unwritten_neighbours_contiguous"] += 1
+    return got
+
+
+def build_st_carrier(build, outdir, fam):
+    env = tool_env(build)
+    tree = os.path.join(outdir, "tree_st")
+    if os.path.exists(tree):
+        shutil.rmtree(tree)
+    os.makedirs(tree + "/maps")
+    T = 1500000000
+    for t, p, a in fam:
+        pth = os.path.join(tree, "maps", st_name(t, p, a))
+        st_host_file(pth, t, p, a)
+        os.utime(pth, (T, T))
+    for d, ds, fs in os.walk(tree):
+        os.utime(d, (T, T))
+    img = os.path.join(outdir, "st_shaped.img")
+    with open(img, "wb") as f:
+        f.truncate(ST_CARRIER["kb"] * 1024)
+    cmd = [os.path.join(build, "misc", "mke2fs"), "-q", "-F", "-U", mkbase.UUID, "-E", "hash_seed=" + mkbase.HASH_SEED] + ST_CARRIER["args"].split() + ["-d", tree, img]
+    rc, out, err = run(cmd, env=env, timeout=600)
+    shutil.rmtree(tree, ignore_errors=True)
+    if rc != 0:
+        raise RuntimeError("mke2fs -d failed for the extent-state carrier: %s" % err.decode("utf8", "replace")[-400:])
+    got = st_shape(build, img, fam)
+    rc, tail = _fsck_n(build, img)
+    return [{"name": "st_shaped", "img": img, "carrier": "st", "layout": "shaped", "fsck_n": rc, "fsck_tail": tail if rc else "", "measured": got, "dirs": None}]
+
+
+# ---------------------------------------------------------------------------------------------------------------
+# casefold (carriers `cf`, `cfs`)
+# ---------------------------------------------------------------------------------------------------------------
+CF_CARRIERS = {"nonstrict": ("cf", "-t ext4 -b 1024 -N 512 -O casefold,metadata_csum,64bit -J size=1"),
+               "strict": ("cfs", "-t ext4 -b 1024 -N 512 -O casefold,metadata_csum,64bit -J size=1 -E encoding_flags=strict")}
+CF_KB = 8192
+CASEFOLD_FL = 0x40000000
+
+
+def _u(s):
+    return s.encode("utf8")
+
+
+# kind -> function(i) -> list of names (bytes) for counter i; the counter keeps the names of one directory apart, `%03d` is ASCII.
+# Valid kinds use code points assigned long before Unicode 12.1.  Twin kinds return the names that share one folded form.
+# Invalid kinds are the ways a byte string fails to be UTF-8 (RFC 3629): a byte that cannot start a sequence, a sequence cut
+# short by an ASCII byte or by the end of the name, an overlong form, a UTF-16 surrogate, a value above U+10FFFF.
+NAME_KINDS = {
+    "ascii_mixed_case":        lambda i: [b"ReadMe_%03d_MiXeD" % i],
+    "utf8_2byte":              lambda i: [_u("caf\u00e9_\u00df_%03d" % i)],
+    "utf8_3byte":              lambda i: [_u("\u20ac_\u6f22\u5b57_%03d" % i)],
+    "utf8_4byte":              lambda i: [_u("\U0001f600_\U00010348_%03d" % i)],
+    "utf8_decomposed":         lambda i: [_u("cafe\u0301_%03d" % i)],
+    "differ_in_case_ascii":    lambda i: [b"File_%03d" % i, b"file_%03d" % i, b"FILE_%03d" % i],
+    "differ_in_case_utf8":     lambda i: [_u("\u00c9cole_\u0416_%03d" % i), _u("\u00e9cole_\u0436_%03d" % i)],
+    "differ_in_normalisation": lambda i: [_u("caf\u00e9_%03d" % i), _u("cafe\u0301_%03d" % i)],
+    "latin1_high_byte":        lambda i: [b"caf\xe9_%03d" % i],
+    "lone_continuation":       lambda i: [b"\x80abc_%03d" % i],
+    "truncated_2byte":         lambda i: [b"trunc_%03d_\xc3" % i],
+    "truncated_3byte":         lambda i: [b"trunc_%03d_\xe2\x82" % i],
+    "truncated_4byte":         lambda i: [b"trunc_%03d_\xf0\x9f\x98" % i],
+    "overlong_2byte":          lambda i: [b"over\xc0\xaf_%03d" % i],
+    "surrogate":               lambda i: [b"sur\xed\xa0\x80_%03d" % i],
+    "above_10ffff":            lambda i: [b"big\xf4\x90\x80\x80_%03d" % i],
+    "bytes_fe_ff":             lambda i: [b"\xff\xfe_%03d" % i],
+}
+CF_PAD = 96                 # size class `indexed`: names are padded to about this length so that a few dozen fill several blocks
+
+
+def _is_utf8(b):
+    try:
+        b.decode("utf8")
+        return True
+    except UnicodeDecodeError:
+        return False
+
+
+def cf_names(kind, size):
+    """the names (bytes) of one directory of the casefold family"""
+    groups = 2 if size == "one_block" else 36
+    out = []
+    for i in range(groups):
+        for nm in NAME_KINDS[kind](i):
+            if size == "indexed":
+                # pad in the middle (after the counter the kind's significant bytes may have to stay last)
+                cut = nm.index(b"%03d" % i) + 3
+                nm = nm[:cut] + b"-" + b"p" * (CF_PAD - len(nm)) + nm[cut:]
+            out.append(nm)
+    return out
+
+
+def cf_dirname(f, k, z):
+    return "%s_%s_%s" % (f, k, z)
+
+
+def build_cf_carrier(build, outdir, mode, fam, univ):
+    """fam: the elements <<mode, flag, kind, size>> of CfDirFamily for this encoding mode"""
+    cname, args = CF_CARRIERS[mode]
+    env = tool_env(build)
+    invalid, twins = set(univ["invalidnamekinds"]), set(univ["twinnamekinds"])
+    tree = os.path.join(outdir, "tree_" + cname).encode()
+    if os.path.exists(tree):
+        shutil.rmtree(tree)
+    os.makedirs(tree + b"/cf")
+    os.makedirs(tree + b"/targets")
+    T = 1500000000
+    meta = {}
+    for m, f, k, z in sorted(fam):
+        dn = cf_dirname(f, k, z)
+        names = cf_names(k, z)
+        # the generator's table must agree with the class the specification puts the kind in
+        bad = [n for n in names if _is_utf8(n) == (k in invalid)]
+        if bad or len(set(names)) != len(names) or any(b"/" in n or b"\0" in n or len(n) > 255 for n in names):
+            raise RuntimeError("name kind %s: generated names do not fit the class (%r)" % (k, bad[:2]))
+        os.makedirs(os.path.join(tree, b"cf", dn.encode()))
+        tgt = os.path.join(tree, b"targets", dn.encode())
+        with open(tgt, "wb") as fh:
+            fh.write(dn.encode() + b"\n")
+        os.utime(tgt, (T, T))
+        for nm in names:
+            os.link(tgt, os.path.join(tree, b"cf", dn.encode(), nm))
+        meta[dn] = {"names": len(names), "folded": f == "folded", "kind": k, "size": z}
+    with open(os.path.join(tree, b"grow_src"), "wb") as fh:
+        fh.write(b"grown\n")
+    for d, ds, fs in os.walk(tree):
+        os.utime(d, (T, T))
+    lin = os.path.join(outdir, cname + "_linear.img")
+    with open(lin, "wb") as fh:
+        fh.truncate(CF_KB * 1024)
+    cmd = [os.path.join(build, "misc", "mke2fs"), "-q", "-F", "-U", mkbase.UUID, "-E", "hash_seed=" + mkbase.HASH_SEED] + args.split() + ["-d", tree.decode(), lin]
+    rc, out, err = run(cmd, env=env, timeout=600)
+    shutil.rmtree(tree, ignore_errors=True)
+    if rc != 0:
+        raise RuntimeError("mke2fs -d failed for casefold carrier %s: %s" % (cname, err.decode("utf8", "replace")[-400:]))
+    dbg = os.path.join(build, "debugfs", "debugfs")
+    # the casefold flag goes on while the directory is linear (no stored hash depends on it yet)
+    P = ext4read.project(lin)
+    if "fatal" in P or "reader_err" in P:
+        raise RuntimeError("reader cannot project casefold carrier %s" % cname)
+    byino = {i["ino"]: i for i in P["inodes"]}
+    ino_of = {t["path"]: t["ino"] for t in P["tree"]}
+    cmds = []
+    for dn, info in sorted(meta.items()):
+        if info["folded"]:
+            ino = ino_of["/cf/" + dn]
+            cmds.append("set_inode_field <%d> flags 0x%x" % (ino, _flagbits(byino[ino]) | CASEFOLD_FL))
+    rc, out, err = run([dbg, "-w", "-f", "-", lin], env=env, timeout=120, input=("\n".join(cmds) + "\n").encode())
+    if rc != 0:
+        raise RuntimeError("debugfs set_inode_field failed on %s" % cname)
+    imgs = [("linear", lin)]
+    reh = os.path.join(outdir, cname + "_rehashed.img")
+    shutil.copyfile(lin, reh)
+    rc, out, err = run([os.path.join(build, "e2fsck", "e2fsck"), "-fyD", reh], env=env, timeout=600)
+    imgs.append(("rehashed", reh))
+    gro = os.path.join(outdir, cname + "_rehashed_then_grown.img")
+    shutil.copyfile(reh, gro)
+    grow_src = os.path.join(outdir, "grow_src")
+    with open(grow_src, "wb") as fh:
+        fh.write(b"grown\n")
+    cmds = []
+    for dn, info in sorted(meta.items()):
+        cmds.append("cd /cf/%s" % dn)
+        extra = [("Grown%d" % k).ljust(CF_PAD if info["size"] == "indexed" else 8, "G") for k in range(5)]
+        for x in extra:
+            cmds.append("write %s %s" % (grow_src, x))
+        for x in extra[1::2]:
+            cmds.append("rm %s" % x)
+    rc, out, err = run([dbg, "-w", "-f", "-", gro], env=env, timeout=600, input=("\n".join(cmds) + "\n").encode())
+    imgs.append(("rehashed_then_grown", gro))
+    outl = []
+    for lay, pth in imgs:
+        rc, tail = _fsck_n(build, pth)
+        Q = ext4read.project(pth)
+        got = {"error": str(Q.get("fatal") or Q.get("reader_err"))[:200]} if ("fatal" in Q or "reader_err" in Q) else cf_measure(Q, meta, pth)
+        outl.append({"name": "%s_%s" % (cname, lay), "img": pth, "carrier": cname, "layout": lay, "fsck_n": rc, "fsck_tail": tail if rc else "",
+                     "measured": got, "dirs": None})
+    return outl
+
+
+def _flagbits(i):
+    rev = {v: k for k, v in ext4read.IFLAGS.items()}
+    return sum(rev[x] for x in i["flags"])
+
+
+def _unj(j):
+    """inverse of the reader's jname(): the name's bytes"""
+    out, i = bytearray(), 0
+    while i < len(j):
+        if j[i] == "\\" and j[i + 1:i + 2] == "x":
+            out.append(int(j[i + 2:i + 4], 16)); i += 4
+        else:
+            out.append(ord(j[i])); i += 1
+    return bytes(out)
+
+
+def cf_measure(P, meta, img):
+    import unicodedata
+    with open(img, "rb") as fh:
+        fh.seek(1024 + 0x27C)
+        enc, encfl = struct.unpack("<HH", fh.read(4))
+    byino = {i["ino"]: i for i in P["inodes"]}
+    dirs = {d["dir"]: d for d in P["dirs"]}
+    ino_of = {t["path"]: t["ino"] for t in P["tree"]}
+    got = {"dirs": len(meta), "folded": 0, "folded_htree": 0, "plain_htree": 0, "dirs_with_invalid_utf8_names": 0, "folded_dirs_with_invalid_utf8_names": 0,
+           "dirs_with_names_differing_only_in_case_or_normalisation": 0, "s_encoding": enc, "strict": encfl & 1}
+    for dn, info in meta.items():
+        ino = ino_of.get("/cf/" + dn)
+        if ino is None or ino not in dirs:
+            continue
+        fold = bool(_flagbits(byino[ino]) & CASEFOLD_FL)
+        ht = dirs[ino]["kind"] == "htree"
+        got["folded"] += fold
+        got["folded_htree"] += (fold and ht)
+        got["plain_htree"] += (ht and not fold)
+        names = [_unj(e[4]) for e in dirs[ino]["ents"] if not e[3]]
+        inval = any(not _is_utf8(n) for n in names)
+        got["dirs_with_invalid_utf8_names"] += inval
+        got["folded_dirs_with_invalid_utf8_names"] += (inval and fold)
+        keys = {}
+        for n in names:
+            if _is_utf8(n):
+                keys.setdefault(unicodedata.normalize("NFD", n.decode("utf8").casefold()), []).append(n)
+        got["dirs_with_names_differing_only_in_case_or_normalisation"] += any(len(v) > 1 for v in keys.values())
+    return got
+
+
+# ---------------------------------------------------------------------------------------------------------------
 # measuring what was obtained
 # ---------------------------------------------------------------------------------------------------------------
 def measure(img):
@@ -378,10 +720,14 @@ def build_carrier(build, outdir, cname, fam, shapes):
 
 
 def family_images(build, univ, tier):
-    """-> ([{"name", "img", "carrier", "layout", "measured"}], note).  Only images that pass e2fsck -fn are returned."""
+    """-> ([{"name", "img", "carrier", "layout", "measured"}], note).  Every image is returned; what `e2fsck -fn` of the tree under
+    test says about it is recorded as information only.  (An earlier version dropped the images that -fn did not pass: that made the
+    program under test the judge of its own universe -- a change that makes e2fsck complain about a healthy image removed exactly
+    the input that shows it.  Whether a start is consistent is decided by TLC on the reader's projection: BaseConsistent.)"""
     stamp = open(os.path.join(build, ".verif_stamp")).read().strip()[:16]
     famlist = univ["dirfamily"] if tier == "thorough" else univ["quickdirfamily"]
-    gen_h = hashlib.sha256(open(os.path.abspath(__file__), "rb").read() + json.dumps([famlist, univ["mapshapes"]], sort_keys=True).encode()).hexdigest()[:8]
+    gen_h = hashlib.sha256(open(os.path.abspath(__file__), "rb").read() + json.dumps([famlist, univ["mapshapes"], univ["extstatefamily"], univ["cfdirfamily"],
+                                                                                     univ["invalidnamekinds"], univ["twinnamekinds"]], sort_keys=True).encode()).hexdigest()[:8]
     outdir = os.path.join(build, "verif-c05fam-%s-%s" % (stamp, gen_h))
     metaf = os.path.join(outdir, "meta.json")
     with Lock(os.path.join(build, "verif-c05fam.lock")):
@@ -410,13 +756,22 @@ def family_images(build, univ, tier):
                 rc3, tail = _fsck_n(build, dst)
                 allimgs.append({"name": "up_%s" % lay, "img": dst, "carrier": "up", "layout": lay, "fsck_n": rc3 if rc == 0 else 100 + rc,
                                 "fsck_tail": tail if rc3 else "", "measured": summarise(measure(dst)), "dirs": None})
+            # written / unwritten extent states and casefold directories: small carriers of their own
+            stfam = sorted((t, tuple(p), a) for t, p, a in univ["extstatefamily"])
+            allimgs += build_st_carrier(build, outdir, stfam)
+            unknown = sorted({k for m, f, k, z in univ["cfdirfamily"]} - set(NAME_KINDS))
+            if unknown:
+                raise RuntimeError("name kinds of the specification without a generator: %s" % unknown)
+            for mode in sorted(CF_CARRIERS):
+                allimgs += build_cf_carrier(build, outdir, mode, [tuple(x) for x in univ["cfdirfamily"] if x[0] == mode], univ)
             with open(metaf, "w") as f:
                 json.dump(allimgs, f, indent=1)
-    ok = [x for x in allimgs if x["fsck_n"] == 0]
+    ok = list(allimgs)
     bad = [(x["name"], x["fsck_n"], x["fsck_tail"][-200:]) for x in allimgs if x["fsck_n"] != 0]
     if tier == "quick":
-        ok = [x for x in ok if x["name"] in ("e4_linear", "e4_rehashed_then_grown", "e3_linear", "up_linear")]
-    note = {"images": {x["name"]: x["measured"] for x in ok}, "dropped_not_clean": bad,
+        ok = [x for x in ok if x["name"] in ("e4_linear", "e4_rehashed_then_grown", "e3_linear", "up_linear", "st_shaped",
+                                             "cf_linear", "cf_rehashed_then_grown", "cfs_linear", "cfs_rehashed_then_grown")]
+    note = {"images": {x["name"]: x["measured"] for x in ok}, "fsck_n_of_tree_under_test_not_clean": bad,
             "entry_counts_e4": {"%s/%d" % (e, n): entry_count(e, n, 12) for e, n, c in sorted(set((e, n, "x") for e, n, c in map(tuple, famlist)))}}
     return ok, note
 
